@@ -43,6 +43,13 @@ SCHED = {
 NUM_BATCHES = 8
 EXPLICIT = (2, 5, 7)
 MISSING = (3, 4, 6, 8)
+# batch states enumerated: label -> (abstract batch_ids argument, number of results present, ids currently missing)
+STATES = {
+    "explicit ids": ("NOTNONE", 3, MISSING),
+    "fresh crop": ("NONE", 0, tuple(range(1, NUM_BATCHES + 1))),
+    "partly grown": ("NONE", 4, MISSING),
+    "partly grown, leading batches missing": ("NONE", 5, (1, 2, 3)),
+}
 
 
 def tjoin(a, b):
@@ -142,7 +149,45 @@ class TFlow(InterFlow):
 
     def test_compare(self, e, env):
         # len(opts["batch_ids"]) == 1 is decided later on representatives: both branches here
-        return super().test_compare(e, env)
+        r = super().test_compare(e, env)
+        if r is None and getattr(self.inter, "state", None):
+            r = self.concrete_test(e, env)
+        return r
+
+    def concrete_test(self, e, env):
+        """A comparison over the crop's batch state (which ids are missing, how
+        many batches / results there are) is decided on the representative
+        state of the configuration being enumerated, by the analyser's own
+        evaluator; anything it cannot evaluate stays undecided."""
+        from ..util import IntEval, single_def
+        state = self.inter.state
+        fi = self.fi
+        BUILT = {"tuple": tuple, "list": list, "sorted": sorted, "len": len, "range": range, "set": set, "min": min, "max": max}
+
+        def on_call(c, ev, st_):
+            txt = norm(c)
+            if txt in state:
+                return state[txt]
+            fn = norm(c.func)
+            if fn in BUILT and not c.keywords:
+                return BUILT[fn](*[ev.ev(a, st_) for a in c.args])
+            return NotImplemented
+
+        class Ev(IntEval):
+            def ev(s, x, st_):
+                if isinstance(x, ast.Name) and x.id not in st_ and x.id not in s.sym:
+                    d = single_def(fi, x.id)
+                    if d and d[1] is not None:
+                        return s.ev(d[1], st_)
+                return super().ev(x, st_)
+        try:
+            v = Ev({k: v for k, v in state.items() if not k.endswith(")")}, on_call).ev(e, {})
+        except (AnalysisError, TypeError, IndexError, KeyError, ValueError):
+            return None
+        if isinstance(v, bool):
+            self.inter.decided_on_state.append(norm(e))
+            return v
+        return None
 
 
 class TInter(Inter):
@@ -150,6 +195,8 @@ class TInter(Inter):
         super().__init__(ctx, None, track=None)
         self.formats = []
         self.returned = []
+        self.state = None
+        self.decided_on_state = []
 
     def flow(self, fi, val):
         fl = TFlow(self, fi, val)
@@ -170,7 +217,7 @@ def representative(key, v, state):
     table = {
         "tuple(batch_ids)": EXPLICIT,
         "range(1, crop.num_batches + 1)": range(1, NUM_BATCHES + 1),
-        "crop.missing_results()": MISSING,
+        "crop.missing_results()": STATES[state][2] if state in STATES else MISSING,
         "crop.num_batches": NUM_BATCHES,
         "crop.name": "mycrop",
         "full_parent_dir": "/home/user/project",
@@ -195,8 +242,11 @@ def enumerate_scripts(ctx):
     out = []
     for sched in ("sge", "pbs", "slurm"):
         for mode in ("array", "single"):
-            for state, bids, nres in (("explicit ids", NOTNONE, const(3)), ("fresh crop", NONE, const(0)), ("partly grown", NONE, const(3))):
+            for state, (bids_s, nres_i, miss) in STATES.items():
+                bids = NOTNONE if bids_s == "NOTNONE" else NONE
+                nres = const(nres_i)
                 inter = TInter(ctx)
+                inter.state = {"crop.missing_results()": tuple(miss), "crop.num_batches": NUM_BATCHES, "crop.num_results": nres_i}
                 init = {"scheduler": const(sched), "mode": const(mode), "batch_ids": bids, "crop.num_results": nres,
                         "hours": NONE, "minutes": NONE, "seconds": NONE, "time": NONE, "num_threads": NONE, "num_workers": NONE, "conda_env": FALSE,
                         "output_directory": NONE, "kwargs": FALSY, "mem": NONE, "mem_per_cpu": NONE, "gigabytes": NONE, "num_nodes": NONE, "num_procs": NONE, "mpi": FALSE,
@@ -380,19 +430,46 @@ def check_script(ctx, f, it, name, text, rep, ids_len, r3, r4, r5, r6, num_batch
                                construct="task-variable %s" % sched, path=name), name)
             return
         a0 = norm(grow_calls[0].args[0]) if grow_calls[0].args else ""
-        if state == "fresh crop":
-            good = a0 == "7" and (lo, hi) == (1, num_batches)
-            want = "grow($TASK) with range 1-%d (num_batches)" % num_batches
+        # evaluate the grown id for every task index of the header range (the analyser's own evaluator)
+        py2 = prog_txt
+        for tv in sorted(taskvars, key=len, reverse=True):
+            py2 = py2.replace(tv, "TASK_")
+        tree2 = ast.parse(py2)
+        g2 = [c for c in ast.walk(tree2) if isinstance(c, ast.Call) and isinstance(c.func, ast.Name) and c.func.id == "grow"][0]
+        ids_assign = [n for n in ast.walk(tree2) if isinstance(n, ast.Assign) and norm(n.targets[0]) == "batch_ids"]
+        ids_lit = None
+        if ids_assign:
+            try:
+                ids_lit = tuple(ast.literal_eval(ids_assign[-1].value))
+            except Exception:
+                ids_lit = None
+        intended = tuple(range(1, num_batches + 1)) if state == "fresh crop" else tuple(rep["batch_ids"])
+
+        def ev(e, k):
+            if isinstance(e, ast.Constant) and isinstance(e.value, int):
+                return e.value
+            if isinstance(e, ast.Name) and e.id == "TASK_":
+                return k
+            if isinstance(e, ast.BinOp) and isinstance(e.op, (ast.Add, ast.Sub)):
+                a, b = ev(e.left, k), ev(e.right, k)
+                return a + b if isinstance(e.op, ast.Add) else a - b
+            if isinstance(e, ast.Call) and isinstance(e.func, ast.Name) and e.func.id == "int" and len(e.args) == 1:
+                return ev(e.args[0], k)
+            if isinstance(e, ast.Subscript) and norm(e.value) == "batch_ids" and ids_lit is not None:
+                i = ev(e.slice, k)
+                if not (0 <= i < len(ids_lit)):     # a negative index would silently wrap around
+                    raise IndexError(i)
+                return ids_lit[i]
+            raise AnalysisError("C16.R4: cannot evaluate the grown id `%s` (%s)" % (norm(e), name))
+        want = "tasks %d-%d grow exactly the ids %s, each once" % (1, len(intended), (list(intended) if len(intended) <= 8 else "1..%d" % len(intended)))
+        try:
+            grown = [ev(g2.args[0], k) for k in range(lo, hi + 1)] if g2.args else None
+        except IndexError:
+            grown = "index out of range"
+        if isinstance(grown, list) and sorted(grown) == sorted(intended) and lo == 1:
+            r4.ok("%s: header range %d-%d, task k grows %s: ids %s" % (name, lo, hi, a0.replace("7", "$TASK"), grown if len(grown) <= 8 else "1..%d" % len(grown)))
         else:
-            good = a0 == "batch_ids[7 - 1]" and (lo, hi) == (1, ids_len)
-            want = "grow(batch_ids[$TASK - 1]) with range 1-%d (len(batch_ids))" % ids_len
-            ids = [n for n in ast.walk(tree) if isinstance(n, ast.Assign) and norm(n.targets[0]) == "batch_ids"]
-            if len(ids) != 1 or ast.literal_eval(ids[0].value) != tuple(rep["batch_ids"]):
-                good = False
-        if good:
-            r4.ok("%s: %s" % (name, want))
-        else:
-            r4.bad(ctx.finding("C16.R4", f, f.node, "%s: array task k grows `%s` over header range %d-%d; intended: %s -- some batch is grown twice / never, or an index is out of range" % (name, a0.replace("7", "$TASK"), lo, hi, want),
+            r4.bad(ctx.finding("C16.R4", f, f.node, "%s: array task k grows `%s` over header range %d-%d, i.e. %s; intended: %s -- some batch is grown twice / never / although it is finished, or an index is out of range" % (name, a0.replace("7", "$TASK"), lo, hi, grown, want),
                                construct="index-mapping %s %s" % (sched, state), path=name), name)
     else:
         if m_arr:
